@@ -257,6 +257,7 @@ func (r *Report) Finish(verifDir, tier string, seed int, wall float64, known []K
 			"packages":            len(c.Pkgs),
 			"functions_analysed":  len(c.Fns),
 			"call_sites":          c.NCallSites,
+			"promoted_variables":  c.NLifted,
 			"checker_cmd":         fmt.Sprintf("./check %s %s", r.Prop, tier),
 			"trusted_base":        []string{"go1.26.8 go/types", "golang.org/x/tools v0.50.0 go/packages, go/ssa, callgraph/vta", "instance tables in checker/" + strings.ToLower(r.Prop) + ".go", "third-party and standard libraries behave as documented"},
 		},
